@@ -106,6 +106,8 @@ def replay_history(ctx, tag, plat, lives):
     plans = []
     for lf in lives:
         cp = concrete_crash(plat, lf, ctx.rng)
+        if lf["reboot"] and ctx.rng.random() < 0.5:
+            lf = dict(lf, reboot="cut")      # same history for the model: the repair that is cut short shows no event
         plans.append({"force": lf["force"], "ans": lf["ans"], "fault": lf["fault"], "crash": cp,
                       "start_mode": lf["start_mode"], "reboot": lf["reboot"], "crash_phase": lf["crash_phase"]})
         h.lifetime(lf["force"], lf["ans"], lf["fault"], cp, start_mode=lf["start_mode"], reboot=lf["reboot"],
@@ -209,7 +211,7 @@ def run(ctx):
                             {"fs:close:post", "fs:open:fail", "fs:write:fail", "fs:close:fail"})
             crash = ctx.rng.choice([None, None] + allpts)
             sm = ctx.rng.choice(["boot", "boot", "signer"])
-            rb = ctx.rng.random() < 0.4
+            rb = ctx.rng.choice([False, False, False, True, "cut"])
             cph = ctx.rng.choice([0, 1]) if rb else 0
             h.lifetime(force, ans, fault, crash, start_mode=sm, reboot=rb, crash_phase=cph)
             lives.append({"force": force, "ans": ans, "fault": fault,
